@@ -904,7 +904,13 @@ class Pin(Constraint):
     def apply(self, block: Block, backend_request: BackendRequest) -> None:
         trial_nos = block.get_trial_numbers(self.factor, self.index, self.within_block)
         if trial_nos:
+            sustain_count = block.sustain_count(self.factor)
             for trial_no in trial_nos:
+                if not self.factor.applies_to_trial(trial_no // sustain_count + 1):
+                    # A derived factor has no level at this trial (before its
+                    # start, or skipped by its stride), so it cannot be pinned.
+                    backend_request.cnfs.append(And([1, -1]))
+                    continue
                 var = block.get_variable(trial_no+1, (self.factor, self.level))
                 backend_request.cnfs.append(And([var]))
         else:
